@@ -61,7 +61,11 @@ var _ p.DataProvider = urlDataProvider{}
 func (u urlDataProvider) Get(key string) any {
 	// if query param ends with [] its always a slice
 	if len(key) > 2 && key[len(key)-2:] == "[]" {
-		return u.Data[key]
+		vals, ok := u.Data[key]
+		if !ok {
+			return nil // a missing parameter is absent, not an empty list
+		}
+		return vals
 	}
 
 	if len(u.Data[key]) > 1 {
